@@ -61,9 +61,10 @@ def main(tier, replay=None):
     batches = []
     for cfg, share, cnt in (("swarm", 1.0, 16000), ("pct", 0.5, 8000), ("random", 0.5, 8000)):
         batches.append(Batch(cfg, exe, "C14", cfg, seed, cnt if q else 10**8, max(2, int(secs * share)), W, samples=(cfg == "swarm"), extra=extra(cfg)).run())
-    # the libidn source set (partial/idn) over the adapter: its eav.c / is_utf8_domain.c copies are library code too
-    exe_idn, _ = build.build_sched("-idn", [], backend="idn")
-    batches.append(Batch("swarm-idn", exe_idn, "C14", "swarm", seed + 4, 4000 if q else 10**8, 60 if q else 90, W, extra=extra("swarm-idn")).run())
+    # the libidn and idnkit source sets over their adapters: their eav.c / is_utf8_domain.c / is_6531_email.c copies are library code too
+    for bk in ("idn", "idnkit"):
+        exe_b, _ = build.build_sched("-" + bk, [], backend=bk)
+        batches.append(Batch("swarm-" + bk, exe_b, "C14", "swarm", seed + 4, 4000 if q else 10**8, 60 if q else 90, W, extra=extra("swarm-" + bk)).run())
     if tier == "thorough":
         # other build configurations of the same sources: EAV_EXTRA (strndup'd lpart/domain), and the optional grammar flags
         for vn, defs in (("-extra", ["-DEAV_EXTRA"]), ("-flags", ["-DRFC6531_FOLLOW_RFC5322", "-DRFC6531_FOLLOW_RFC20", "-DLABELS_ALLOW_UNDERSCORE"])):
